@@ -121,7 +121,37 @@ def gen_encode_sites(repo):
     return body
 
 
+def gen_consts(repo):
+    cred = read(repo, "src/data_types/credential.rs")
+    m = re.search(r"QUALIFIABLE_TAGS\s*:\s*\[[^\]]*\]\s*=\s*\[(.*?)\];", cred, re.S)
+    if not m:
+        die("QUALIFIABLE_TAGS not found")
+    tags = re.findall(r'"([^"]*)"', m.group(1))
+    schema = read(repo, "src/data_types/schema.rs")
+    m = re.search(r"MAX_ATTRIBUTES_COUNT\s*:\s*usize\s*=\s*(\d+)\s*;", schema)
+    if not m:
+        die("MAX_ATTRIBUTES_COUNT not found")
+    max_attrs = m.group(1)
+    val = read(repo, "src/utils/validation.rs")
+    regs = {}
+    for name in ["URI_IDENTIFIER", "LEGACY_DID_IDENTIFIER", "LEGACY_SCHEMA_IDENTIFIER", "LEGACY_CRED_DEF_IDENTIFIER", "LEGACY_REV_REG_DEF_IDENTIFIER"]:
+        m = re.search(r"pub static " + name + r"\s*:\s*Lazy<Regex>\s*=\s*Lazy::new\(\|\|\s*\{?\s*Regex::new\(\s*(r?)\"((?:[^\"\\]|\\.)*)\"\s*\)", val, re.S)
+        if not m:
+            die(f"regex {name} not found")
+        raw, text = m.group(1), m.group(2)
+        if not raw:
+            text = text.replace("\\\\", "\\")   # ordinary literal: unescape backslashes (none of the five uses other escapes)
+        regs[name] = text
+    body = HEADER
+    body += "Definition gen_qualifiable_tags : list string := [" + "; ".join(coq_str(t) for t in tags) + "].\n"
+    body += f"Definition gen_max_attributes_count : Z := {max_attrs}%Z.\n"
+    for name, text in regs.items():
+        body += f"Definition gen_regex_{name.lower()} : string := {coq_str(text)}.\n"
+    return body
+
+
 GENERATORS = {
+    "Consts": gen_consts,
     "EncodeSites": gen_encode_sites,
 }
 
